@@ -19,6 +19,7 @@ CONSTRUCTS = {
  'concat_list': "a ++ [ b ]", 'update_set': "a // { b = 1; }", 'formal_default_list': "{ a ? [ b ], ... }: a", 'formal_default_multi': "{\n  a ? [\n    b\n    c\n  ],\n  ...\n}:\na",
  'select_set': "{ a = 1; }.a", 'not_paren': "!(a b)", 'inherit_in_let': "let\n  inherit (p) a;\nin\na",
  # coverage probe (source lines no cell executed): binding-less let, explicit set and attrpath bindings sharing a root, empty formals
+ 'import': "import ./x.nix", 'import_call': "import ./x.nix { }", 'import_nl': "import\n  ./x.nix", 'import_paren': "import (f x)",
  'let_let': "let\n  a = 1;\nin\nlet\n  b = 2;\nin\na", 'let_let_let': "let\n  a = 1;\nin\nlet\n  b = 2;\nin\nlet\n  c = 3;\nin\n{\n  d = a;\n}",
  'let_empty': "let in x", 'let_empty_set': "let\nin\n{\n  a = 1;\n}", 'mixed_attrpath': "{\n  a.b = 1;\n  a = {\n    c = 2;\n  };\n}",
  'mixed_attrpath_rev': "{\n  a = {\n    c = 2;\n  };\n  a.b = 1;\n}", 'dup_sets': "{\n  a = {\n    b = 1;\n  };\n  a = {\n    c = 2;\n  };\n}",
@@ -32,13 +33,14 @@ KINDS = {
  'two_b': ' /* a */ /* b */ ', 'b_then_eol_c': ' /* a */ # b\n', 'two_own_b': '\n/* a */ /* b */\n',
  'tight_b': '/* c */', 'tight_eol_c': '# c\n', 'tight_b_sp': '/* c */ ',
  # multi-line block comments whose continuation lines are indented LESS than the opener (third round of seeds)
+ 'ml_b_tab': '\n\t/* first\n\t   second */\n', 'ml_b_tab2': '\n/* a\n\tb\n \tc */\n',
  'ml_b_under': ' /* alpha\nbeta */ ', 'ml_b_under_own': '\n    /* title\n  body line\nlast */\n', 'ml_doc_under': ' /** alpha\n beta\nc */\n',
 }
 WS_KINDS = {'sp', 'sp2', 'tab', 'nl', 'nl_ind', 'blank', 'blank3'}
-LINE_LEVEL = {'ml_b_under_own', 'eol_c', 'own_c', 'own_c_blank', 'own_b', 'ml_b', 'doc_b', 'hash_nospace', 'eol_c_blank', 'eol_b_blank', 'own_c_two', 'blank_own_c', 'own_c_blank_after', 'tight_eol_c'}       # comment alone on a line or at the end of one
+LINE_LEVEL = {'ml_b_tab', 'ml_b_tab2', 'ml_b_under_own', 'eol_c', 'own_c', 'own_c_blank', 'own_b', 'ml_b', 'doc_b', 'hash_nospace', 'eol_c_blank', 'eol_b_blank', 'own_c_two', 'blank_own_c', 'own_c_blank_after', 'tight_eol_c'}       # comment alone on a line or at the end of one
 CONTEXTS = {'lambda_body': lambda e: 'x:\n' + e, 'top': lambda e: e, 'lead_ws': lambda e: '\n   ' + e,        # lead_ws: the file starts with whitespace (fifth round: gaps were read at shifted offsets)
             'bindval': lambda e: "{\n  v = " + e.replace("\n", "\n  ") + ";\n}", 'listitem': lambda e: "[\n  " + e.replace("\n", "\n  ") + "\n]"}
-NOT_LIST_ITEMS = ('let_let', 'let_let_let', 'let_empty', 'let_empty_set', 'empty_formals', 'empty_formals_at', 'formals_ellipsis_only', 'with_list', 'with_set', 'with_istr', 'with_paren', 'with_call', 'with_multi_list', 'assert_list', 'assert_set', 'lambda_list', 'lambda_set', 'lambda_formals_set', 'let_set', 'let_list', 'if_set', 'call_list', 'call_istr', 'concat_list', 'update_set', 'formal_default_list', 'formal_default_multi', 'not_paren', 'inherit_in_let', 'if_multi', 'if_chain', 'with_multi', 'assert_multi', 'lambda_nl', 'call_multi', 'binary_multi', 'call', 'with', 'assert', 'if', 'lambda_id', 'lambda_formals', 'lambda_formals_multi', 'lambda_at', 'lambda_at_pre', 'let', 'binary', 'chain', 'update', 'has_attr', 'not', 'neg', 'select_or', 'call_set')
+NOT_LIST_ITEMS = ('import', 'import_call', 'import_nl', 'import_paren', 'let_let', 'let_let_let', 'let_empty', 'let_empty_set', 'empty_formals', 'empty_formals_at', 'formals_ellipsis_only', 'with_list', 'with_set', 'with_istr', 'with_paren', 'with_call', 'with_multi_list', 'assert_list', 'assert_set', 'lambda_list', 'lambda_set', 'lambda_formals_set', 'let_set', 'let_list', 'if_set', 'call_list', 'call_istr', 'concat_list', 'update_set', 'formal_default_list', 'formal_default_multi', 'not_paren', 'inherit_in_let', 'if_multi', 'if_chain', 'with_multi', 'assert_multi', 'lambda_nl', 'call_multi', 'binary_multi', 'call', 'with', 'assert', 'if', 'lambda_id', 'lambda_formals', 'lambda_formals_multi', 'lambda_at', 'lambda_at_pre', 'let', 'binary', 'chain', 'update', 'has_attr', 'not', 'neg', 'select_or', 'call_set')
 # ---- nesting family: every sequence of up to three wrappers around a leaf, each wrapper with names of its own depth ----
 WRAP = {
  'let': lambda i, e: 'let\n  v%d = %d;\nin\n%s' % (i, i, e), 'lam': lambda i, e: 'x%d: %s' % (i, e), 'formals': lambda i, e: '{ p%d }: %s' % (i, e),
@@ -73,6 +75,8 @@ def _lets(n, body, comments=False):
 CANON_DOCS = {
  'lets3': _lets(3, 'v1 + v2 + v3'), 'lets4': _lets(4, '{\n  a = v1;\n}'), 'lets5_comments': _lets(5, '[\n  v1\n  v5\n]', True),
  'pkg_lets3': '# header\n{ lib, stdenv }:\n' + _lets(3, 'stdenv.mkDerivation {\n  pname = "x";\n  version = "1";\n}', True),
+ 'lets_blank_between': 'let\n  a = 1;\nin\n\nlet\n  b = 2;\nin\na', 'lets_comment_between': 'let\n  a = 1;\nin\n# helpers\nlet\n  b = 2;\nin\n{\n  c = a;\n}',
+ 'pkg_lets_blank': '{ lib }:\n\nlet\n  v = "1";\nin\n\nlet\n  p = "d";\nin\nlib.mk {\n  inherit p v;\n}', 'lets3_blank_comment': 'let\n  a = 1;\nin\n\n# two\nlet\n  b = 2;\nin\n\nlet\n  c = 3;\nin\na',
  'lambda_chain': 'a: b: c: {\n  x = a;\n}', 'lambda_chain_nl': 'a: b: c:\n{\n  x = a;\n}',
  'sets_depth5': '{\n  a = {\n    b = {\n      c = {\n        d = {\n          e = 1;\n        };\n      };\n    };\n  };\n}',
  'lists_depth4': '[\n  [\n    [\n      [\n        1\n        2\n      ]\n    ]\n  ]\n]',
